@@ -49,11 +49,13 @@ func init() {
 			}
 		}
 		walk := func(id string) Op {
-			res := Pick(r, []string{"transactions", "transactions", "logs", "logs", "accounts"})
+			res := Pick(r, []string{"transactions", "transactions", "logs", "logs", "accounts", "volumes"})
 			ws := &WalkSpec{Resource: res, PageSize: 1 + r.Intn(4), Back: r.Chance(0.6)}
 			switch res {
 			case "accounts":
 				ws.Sort = Pick(r, []string{"", "", "address:desc", "address:asc"})
+			case "volumes":
+				ws.Sort = "" // by account, ascending (ties between the assets of an account: account, then asset)
 			default:
 				ws.Sort = Pick(r, []string{"", "", "id:asc", "id:desc"})
 			}
@@ -90,7 +92,7 @@ func init() {
 // entityEvents: for a ledger and a resource, the key of every committed entity and the event of the commit
 // that created it.
 func (r *runner) entityEvents(ledgerName, resource string) map[string]uint64 {
-	table := map[string]string{"transactions": "tx", "logs": "log", "accounts": "acct"}[resource]
+	table := map[string]string{"transactions": "tx", "logs": "log", "accounts": "acct", "volumes": "vol"}[resource]
 	out := map[string]uint64{}
 	for _, rec := range r.w.db.CommitsSince(0) {
 		for _, wr := range rec.Writes {
@@ -103,6 +105,8 @@ func (r *runner) entityEvents(ledgerName, resource string) map[string]uint64 {
 				k = fmt.Sprint(row.ID)
 			case *AcctRow:
 				k = row.Address
+			case *VolRow:
+				k = strings.Replace(wr.Key.Key, "\x00", "/", 1)
 			default:
 				k = strings.TrimLeft(wr.Key.Key, "0")
 				if k == "" {
@@ -136,7 +140,7 @@ func checkWalks(r *runner) []Violation {
 		if bad {
 			continue
 		}
-		desc := ws.Resource != "accounts"
+		desc := ws.Resource != "accounts" && ws.Resource != "volumes"
 		if strings.HasSuffix(ws.Sort, ":asc") {
 			desc = false
 		} else if strings.HasSuffix(ws.Sort, ":desc") {
@@ -144,8 +148,8 @@ func checkWalks(r *runner) []Violation {
 		}
 		less := func(a, b string) bool { // a strictly before b in the requested order
 			var c int
-			if ws.Resource == "accounts" {
-				c = strings.Compare(a, b)
+			if ws.Resource == "accounts" || ws.Resource == "volumes" {
+				c = strings.Compare(strings.Replace(a, "/", "\x00", 1), strings.Replace(b, "/", "\x00", 1))
 			} else {
 				x, _ := new(big.Int).SetString(a, 10)
 				y, _ := new(big.Int).SetString(b, 10)
